@@ -140,6 +140,30 @@ def _install():
         _emit("juniper", {"ev": "dec", "magic": magic, "body": body, "outcome": "ok", "plain": [ord(ch) for ch in p]})
         return p
 
+    # sensitive-word anonymizer: configuration per instance, one event per anonymize(line)
+    import netconan.sensitive_item_removal as SIR0
+    W = SIR0.SensitiveWordAnonymizer
+    w_init, w_anon = W.__init__, W.anonymize
+
+    def winit(self, sensitive_words, salt, reserved_words=None, *a, **kw):
+        if reserved_words is None:
+            w_init(self, sensitive_words, salt, *a, **kw)
+            from netconan.default_reserved_words import default_reserved_words as rw
+        else:
+            w_init(self, sensitive_words, salt, reserved_words, *a, **kw)
+            rw = reserved_words
+        _counter[0] += 1
+        _inst[id(self)] = {"n": _counter[0], "words": sorted(sensitive_words), "salt": salt, "reserved": sorted(rw) if len(rw) < 200 else None}
+
+    def wanon(self, line):
+        out = w_anon(self, line)
+        c = _inst.get(id(self))
+        if c:
+            _emit("words", {"cfg": c, "in": line, "out": out})
+        return out
+
+    W.__init__, W.anonymize = winit, wanon
+
     J.juniper_nonrandom_encrypt, J.juniper_decrypt = juniper_nonrandom_encrypt, juniper_decrypt
     import netconan.sensitive_item_removal as SIR
     SIR.juniper_secrets.juniper_nonrandom_encrypt = juniper_nonrandom_encrypt
